@@ -333,7 +333,9 @@ func (g *Gen) execInstr(fr *Frame, st *State, in ssa.Instruction, r string) bool
 			}
 		}
 		ref := g.newRef(fr.id + "clo")
-		fr.vals[x] = Val{T: ref, S: "Int", Ty: x.Type(), Clo: &Closure{Fn: fn, Bindings: bs}}
+		clo := &Closure{Fn: fn, Bindings: bs}
+		fr.closures = append(fr.closures, clo)
+		fr.vals[x] = Val{T: ref, S: "Int", Ty: x.Type(), Clo: clo}
 	case *ssa.MapUpdate:
 		g.mapUpdate(fr, st, x)
 	case *ssa.Lookup:
@@ -1117,6 +1119,7 @@ func (g *Gen) mapUpdate(fr *Frame, st *State, x *ssa.MapUpdate) {
 		return
 	}
 	k, v := fr.val(x.Key), fr.val(x.Value)
+	g.mapUpdateClauses(fr, st, x, m, k, v)
 	dn, ds, vn, vs := g.mapHeaps(mt)
 	dh := g.heapTerm(st, dn, ds)
 	vh := g.heapTerm(st, vn, vs)
@@ -1407,4 +1410,58 @@ func (g *Gen) evalLenient(x *CExpr, env *Env, pos bool) (string, bool) {
 		return "", false
 	}
 	return v.T, true
+}
+
+// mapUpdateClauses: `mapupdate <name> requires` obligations of the function under contract at this m[k] = v.
+func (g *Gen) mapUpdateClauses(fr *Frame, st *State, x *ssa.MapUpdate, m, k, v Val) {
+	top := fr
+	for top.parent != nil {
+		top = top.parent
+	}
+	if top.fc == nil || g.dry > 0 || len(top.fc.MapReqs) == 0 {
+		return
+	}
+	// name of the map: struct field it was loaded from, or the local variable holding it
+	name := ""
+	if u, ok := x.Map.(*ssa.UnOp); ok {
+		if fa, ok := u.X.(*ssa.FieldAddr); ok {
+			if pt, ok := fa.X.Type().Underlying().(*types.Pointer); ok {
+				if stt, ok := pt.Elem().Underlying().(*types.Struct); ok {
+					name = stt.Field(fa.Field).Name()
+				}
+			}
+		}
+		if al, ok := u.X.(*ssa.Alloc); ok {
+			name = al.Comment
+		}
+	}
+	if name == "" {
+		for o, sv := range st.src {
+			if !st.srcAddr[o] && sv.T == m.T {
+				name = o.Name()
+			}
+		}
+	}
+	for _, cl := range top.fc.MapReqs {
+		if cl.Anchor != name {
+			continue
+		}
+		g.seenCall[cl] = true
+		env := g.envFor(fr, st)
+		env.pos = x.Pos()
+		env.vars = map[string]Val{"c_key": k, "c_value": v, "c_map": m}
+		val, err := g.evalBool(cl.Expr, env)
+		if err != nil {
+			if lv, ok := g.evalLenient(cl.Expr, env, true); ok {
+				val, err = lv, nil
+			}
+		}
+		if err != nil {
+			g.contractError(cl, fmt.Errorf("at update of map %s in %s: %v", name, fr.topKey(), err))
+			continue
+		}
+		top.callIdx["mapupdate:"+name]++
+		g.addObligation(&Obligation{Name: fmt.Sprintf("%s.mapupdate[%s#%d].requires.%s", fr.topKey(), name, top.callIdx["mapupdate:"+name], cl.Name), Func: fr.topKey(), Kind: "mapreq",
+			Props: cl.Props, Guard: fr.curReach, Goal: val, Src: cl.Src, Pos: g.posOf(x)})
+	}
 }
